@@ -3,7 +3,7 @@
 # reported by at least one of the checks recorded in its meta.json (must-fail corpus), and every
 # harmless edit under /verif/selftest/harmless must pass the checks listed in harmless/CHECKS
 # (must-pass corpus).  Works on scratch copies of /repo (outside /repo and /verif), removed afterwards.
-# usage: selftest/run.sh [seeded|harmless|all] [id-filter-regex]
+# usage: selftest/run.sh [seeded|harmless|own|all] [id-filter-regex]
 set -u
 WHAT=${1:-all}; FILT=${2:-.}
 fail=0
@@ -37,5 +37,18 @@ if [ "$WHAT" = harmless ] || [ "$WHAT" = all ]; then
       echo "SELFTEST harmless/$p: quiet on $checks"
     fi
   done < /verif/selftest/harmless/CHECKS
+fi
+if [ "$WHAT" = own ] || [ "$WHAT" = all ]; then
+  # changes written while closing gaps (not from the sub-agents): each must be reported by the check named
+  while read -r p c; do
+    [ -n "$p" ] || continue
+    [[ $p =~ $FILT ]] || continue
+    out=$(/verif/tools/trymut.sh /verif/selftest/own/$p $c 2>&1)
+    if echo "$out" | grep -q "^VIOLATION property=$c " && echo "$out" | grep -q "exit=1"; then
+      echo "SELFTEST own/$p: detected by $c"
+    else
+      echo "SELFTEST own/$p: NOT detected by $c"; fail=1
+    fi
+  done < /verif/selftest/own/CHECKS
 fi
 exit $fail
